@@ -61,3 +61,63 @@ Proof.
   { destruct s; try exact H. exfalso. eapply Hs. reflexivity. }
   destruct (grow_index_rule adj nodes s sub compl d i Ht H') as [A [B _]]. auto.
 Qed.
+
+(* ---------- sample.py ---------- *)
+Theorem postselect_spec samples lo hi s :
+  In s (postselect samples lo hi) <-> In s samples /\ lo <= list_sum s <= hi.
+Proof.
+  unfold postselect. rewrite filter_In. split; intros [H1 H2]; split; auto.
+  - apply andb_true_iff in H2. destruct H2 as [A B]. apply Nat.leb_le in A, B. lia.
+  - apply andb_true_iff. split; apply Nat.leb_le; lia.
+Qed.
+
+Lemma count_occ_nat_app v a b : count_occ_nat v (a ++ b) = count_occ_nat v a + count_occ_nat v b.
+Proof. induction a as [|x t IH]; simpl; auto. rewrite IH. lia. Qed.
+
+Lemma count_occ_nat_repeat v x c : count_occ_nat v (repeat x c) = if x =? v then c else 0.
+Proof. induction c as [|c IH]; simpl; [destruct (x =? v); auto|]. rewrite IH. destruct (x =? v); lia. Qed.
+
+Lemma count_occ_nat_perm v l l' : Permutation l l' -> count_occ_nat v l = count_occ_nat v l'.
+Proof. induction 1; simpl; lia. Qed.
+
+Lemma mfc_at_count s : forall b i,
+  count_occ_nat i (modes_from_counts_at b s) = if i <? b then 0 else nth (i - b) s 0.
+Proof.
+  induction s as [|c t IH]; intros b i; simpl.
+  - destruct (i <? b); auto. destruct (i - b); auto.
+  - rewrite count_occ_nat_app, count_occ_nat_repeat, IH.
+    destruct (b =? i) eqn:E1.
+    + apply Nat.eqb_eq in E1. subst i. rewrite Nat.ltb_irrefl.
+      replace (b <? S b) with true by (symmetry; apply Nat.ltb_lt; lia).
+      rewrite Nat.sub_diag. lia.
+    + apply Nat.eqb_neq in E1. destruct (i <? b) eqn:E2.
+      * apply Nat.ltb_lt in E2. replace (i <? S b) with true by (symmetry; apply Nat.ltb_lt; lia). lia.
+      * apply Nat.ltb_ge in E2. replace (i <? S b) with false by (symmetry; apply Nat.ltb_ge; lia).
+        destruct (i - b) as [|k] eqn:E3; [lia|]. replace (i - S b) with k by lia. lia.
+Qed.
+
+(* modes_from_counts lists mode i exactly s[i] times, in non-decreasing order *)
+Theorem modes_from_counts_count s i : count_occ_nat i (modes_from_counts s) = nth i s 0.
+Proof.
+  unfold modes_from_counts. rewrite (count_occ_nat_perm _ _ _ (sort_asc_perm _)).
+  rewrite mfc_at_count. simpl. rewrite Nat.sub_0_r. reflexivity.
+Qed.
+
+Lemma count_occ_nat_In v l : In v l <-> 1 <= count_occ_nat v l.
+Proof.
+  induction l as [|x t IH]; simpl; [split; [tauto|lia]|].
+  destruct (x =? v) eqn:E.
+  - apply Nat.eqb_eq in E. split; [lia|auto].
+  - apply Nat.eqb_neq in E. rewrite IH. split; [intros [H|H]; [congruence|lia]|intros H; right; lia].
+Qed.
+
+(* to_subgraphs: the nodes at the clicked positions, nothing else *)
+Theorem to_subgraph_spec gnodes s v :
+  In v (to_subgraph gnodes s) <-> exists i, 1 <= nth i s 0 /\ v = nth i gnodes 0.
+Proof.
+  unfold to_subgraph. rewrite sort_asc_In, in_map_iff. split.
+  - intros [i [Hv Hi]]. apply (proj1 (dedup_In _ _)) in Hi. apply (proj1 (count_occ_nat_In _ _)) in Hi.
+    rewrite modes_from_counts_count in Hi. exists i. auto.
+  - intros [i [Hi Hv]]. exists i. split; auto. apply (proj2 (dedup_In _ _)). apply (proj2 (count_occ_nat_In _ _)).
+    rewrite modes_from_counts_count. auto.
+Qed.
